@@ -28,7 +28,9 @@ static unsigned long my_hash(const void *k)
 	case 0: return (unsigned long)id;
 	case 1: return 7;
 	case 2: return (unsigned long)-1;          /* h % size lands wherever ULONG_MAX % size does; probes wrap around */
-	default: return (unsigned long)(id / 2) * 3; /* two pairs of colliding keys */
+	case 3: return (unsigned long)(id / 2) * 3; /* two pairs of colliding keys */
+	case 4: return id == 2 ? 1 : 0;              /* three keys share a home slot, the fourth lives in the NEXT slot */
+	default: return (unsigned long)(id & 1);     /* two keys per home slot, homes adjacent */
 	}
 }
 static int my_equal(const void *a, const void *b) { return strcmp((const char *)a, (const char *)b) == 0; }
